@@ -343,6 +343,12 @@ func c11ReadClass(timedOut bool) string {
 	return "ok"
 }
 
+// c11FailRC is an underlying stream whose Read fails.
+type c11FailRC struct{}
+
+func (c *c11FailRC) Read(p []byte) (int, error) { return 0, errors.New("verif: injected read error") }
+func (c *c11FailRC) Close() error               { return nil }
+
 // c11SlowRC is an underlying stream whose Close blocks until released: it holds the window
 // between "decided to close" and "closed" open, so that the other closing path arrives
 // inside it (fault-injecting ReadCloser; no hook in the code under test).
@@ -423,7 +429,7 @@ func c11Overlap(t *testing.T, rep *vfReport, timerFirst bool) (ops, out []string
 }
 
 func TestVerifC11(t *testing.T) {
-	rep := vfNewReport("C11", "A: sequential op sequences (30-120 ops) on a real snapshot store with a full and an incremental snapshot: open (idle timeout 0 or 1 h), read, Close, repeated Close, idle callback with expired / fresh last-read time, short readers, failing Open, Store.Reap, held write lock; non-trivial when a forced close, a repeated Close and a refused Reap all occurred; B: 3-6 reader goroutines x 4-10 streams each (4 ms idle timeout, stalls, double and concurrent Close) against a reaper adding 3 incrementals and reaping through Reap() and the blocking reapLoop; C: real 25-55 ms idle timers with one read before the stall")
+	rep := vfNewReport("C11", "A: sequential op sequences (30-120 ops) on a real snapshot store with a full and an incremental snapshot: open (idle timeout 0 or 1 h), read, Close, repeated Close, idle callback with expired / fresh last-read time, short readers, failing Open, Store.Reap, held write lock; non-trivial when a forced close, a repeated Close and a refused Reap all occurred; B: 3-6 reader goroutines x 4-10 streams each (4 ms idle timeout, stalls, double and concurrent Close) against a reaper adding 3 incrementals and reaping through Reap() and the blocking reapLoop; C: real 25-55 ms idle timers; the consumer reads once / reads to EOF / gets a read error, then stalls without Close")
 	// if the process dies (e.g. the \"reader count went negative\" panic in a timer goroutine) this report stays
 	// checkpoint: what has been found so far plus the crash marker is on disk at all times; the
 	// final Write (deferred) replaces it with the report without the marker
@@ -660,28 +666,66 @@ func TestVerifC11(t *testing.T) {
 	// stream not yet idle long enough and must re-arm), then stalls: the stream must be
 	// force-closed, not before lastRead+timeout, and the reaper must then get the lock.
 	{
-		nC := vfScale(6, 60)
+		nC := vfScale(9, 90)
 		var wg sync.WaitGroup
 		for i := 0; i < nC; i++ {
 			timeout := time.Duration(25+r.Intn(30)) * time.Millisecond
 			readAfter := time.Duration(5+r.Intn(15)) * time.Millisecond
+			mode := []string{"one-read", "to-eof", "read-error"}[i%3]
 			wg.Add(1)
 			go func(i int) {
 				defer wg.Done()
 				s := c11NewStore(t)
 				defer s.Close()
 				s.SetReadTimeout(timeout)
-				_, rc, err := s.Open(c11Newest(s))
-				if err != nil {
-					t.Errorf("open: %v", err)
-					return
+				var rc io.ReadCloser
+				if mode == "read-error" {
+					// a stream whose underlying reader fails: what Store.Open does, with a failing reader
+					if err := s.mrsw.BeginRead(); err != nil {
+						t.Errorf("begin read: %v", err)
+						return
+					}
+					rc = NewLockingStreamer(&c11FailRC{}, s, timeout)
+				} else {
+					var err error
+					_, rc, err = s.Open(c11Newest(s))
+					if err != nil {
+						t.Errorf("open: %v", err)
+						return
+					}
 				}
 				l := rc.(*LockingStreamer)
 				start := time.Now()
 				time.Sleep(readAfter)
 				tRead := time.Since(start) // measured BEFORE the read: the recorded last-read time is not earlier
 				n, rerr := rc.Read(make([]byte, 16))
-				replay := map[string]interface{}{"timeout_ns": int64(timeout), "read_after_ns": int64(readAfter), "run": i}
+				replay := map[string]interface{}{"timeout_ns": int64(timeout), "read_after_ns": int64(readAfter), "run": i, "consumer": mode + ", then stalls without Close"}
+				switch mode {
+				case "to-eof":
+					// drain the stream completely: the last Read returns (0, io.EOF)
+					for rerr == nil {
+						tb := time.Since(start)
+						var k int
+						k, rerr = rc.Read(make([]byte, 4096))
+						if k > 0 {
+							tRead = tb // only a read that returned data moves the last-read time
+						}
+					}
+					if rerr != io.EOF {
+						rep.Count("C:inconclusive-slow-machine")
+						rc.Close()
+						return
+					}
+					n, rerr = 1, nil
+				case "read-error":
+					if rerr == nil || l.timedOut.Is() {
+						rep.Count("C:inconclusive-slow-machine")
+						rc.Close()
+						return
+					}
+					tRead = 0 // no data was ever read: the last-read time is the creation time
+					n, rerr = 1, nil
+				}
 				if rerr != nil || n == 0 {
 					// the machine was so slow that the stream idled out before our read: nothing to judge
 					rep.Count("C:inconclusive-slow-machine")
